@@ -1,5 +1,9 @@
 import TacklerModel.Model.Selector
+import TacklerModel.Model.ReportSel
 import TacklerModel.Lemmas.Regex
+import TacklerModel.Props.C02
+import TacklerModel.Props.C03
+import TacklerModel.Props.C10
 /-!
 # C11 — account selectors match whole account names (and never alter remaining figures)
 
@@ -18,10 +22,23 @@ and every haystack; there is no bound on lengths.
 * `selector_matches_whole_name`, `empty_selects_all`, `acc_selector_selects`
 * `literal_selector`, `literal_part_not_selected`, `plain_pattern_selects` – never a substring match
 
-**Part B (to be appended below, marked by its own section header): selecting is a pure row filter**
-(`balance_rowfilter`, `register_rowfilter`, `equity_rowfilter`) over the balance / register / equity
-models.  Part B should use `Tackler.selects` / `AccSelector.eval` and may use
-`selector_matches_whole_name` to restate its filters.
+**Part B (second section of the file): selecting is a pure row filter.**  Theorems over the balance /
+register / equity kernels (`Model/Balance.lean`, `Model/Register.lean`, `Model/Equity.lean`) with the
+selectors plugged in the way the reports do it (`Model/ReportSel.lean`: `balanceBySel`, `registerBySel`,
+`equityBySel`), for every journal, every settings state and every pattern list inside the regex subset
+(`parseAll ras = some rs`):
+
+* `balance_rowfilter`, `balance_figures_unchanged` – the listed rows are rows of the kernel's (unselected)
+  balance, untouched: own sums and *full-tree* sums are those of the whole posting stream; what the selector
+  can change besides the row list is only whether the delta sums are defined (`naive_rowfilter_false`)
+* `balance_deltas_recomputed`   – one delta per commodity that still has a listed row, = Σ listed own sums
+* `register_rowfilter`          – entries = the unselected entries with the rejected rows removed (amount and
+  running total untouched), entries left without a row are not printed
+* `equity_rowfilter`            – per commodity: the postings are the non-zero selected rows of the unselected
+  balance with their own sums, then the recomputed balancing posting
+* `selected_iff_matches`, `register_selected_iff_matches`, `equity_selected_iff_matches` – "selected" is
+  `selects rs name`, i.e. (Part A) some pattern matches the entire account name
+* `empty_sel_all`               – no pattern: all rows / all postings / all non-zero rows
 -/
 namespace Tackler
 namespace C11
@@ -270,7 +287,450 @@ example : (parse "").map (fun r => (selects [r] "", selects [r] "a")) = some (tr
 example : ∃ sel, accSelector ["b", "a:.*"] = .ok sel ∧ sel.eval "a:x" = true ∧ sel.eval "ab" = false :=
   ⟨_, rfl, by decide, by decide⟩
 
-/-! ## Part B — selecting is a pure row filter (appended by the balance / register models) -/
+/-! ## Part B — selecting is a pure row filter -/
+
+/-! ### the selector of the three outputs, over pattern meanings -/
+
+/-- balance / equity rows: the account is selected by the pattern meanings `rs` -/
+def balSpec (rs : List Regex) (row : BalRow) : Bool := selects rs (acctName row.acct)
+
+/-- register rows: the posting's account is selected -/
+def regSpec (rs : List Regex) (row : RegRow) : Bool := selects rs (acctName row.post.acct)
+
+/-- equity rows: non-zero own sum and selected account -/
+def eqSpec (rs : List Regex) (row : BalRow) : Bool := !row.own.isZero && balSpec rs row
+
+/-- all three outputs build the same whole-name selector from a pattern list inside the subset -/
+theorem report_selector (ras : List String) (rs : List Regex) (h : parseAll ras = some rs) :
+    ∃ sel, accSelector ras = .ok sel ∧ balRowSel sel = balSpec rs ∧ regRowSel sel = regSpec rs ∧
+      nonZeroSel (equityAcc sel) = eqSpec rs := by
+  obtain ⟨sel, hsel, hev⟩ := acc_selector_selects ras rs h
+  refine ⟨sel, hsel, ?_, ?_, ?_⟩
+  · funext row; simp [balRowSel, balSpec, hev]
+  · funext row; simp [regRowSel, regSpec, hev]
+  · funext row
+    rw [nonZeroSel_equityAcc]
+    simp [equityRowSel, equitySelEval, eqSpec, balSpec, hev]
+
+/-- a row is selected iff some pattern matches the entire account name (all rows without patterns) -/
+theorem balSpec_iff (rs : List Regex) (row : BalRow) :
+    balSpec rs row = true ↔ rs = [] ∨ ∃ r ∈ rs, FullMatch r (acctName row.acct).toList :=
+  selector_matches_whole_name rs _
+
+theorem regSpec_iff (rs : List Regex) (row : RegRow) :
+    regSpec rs row = true ↔ rs = [] ∨ ∃ r ∈ rs, FullMatch r (acctName row.post.acct).toList :=
+  selector_matches_whole_name rs _
+
+/-! ### balance -/
+
+/-- inversion of `Balance::from_iter` -/
+theorem fromIter_ok (st : Settings) (sel : BalRow → Bool) (posts : List BPost) (b : Balance) :
+    fromIter st sel posts = .ok b ↔
+      ∃ bal ds, balance st posts = .ok bal ∧ deltaGroups (chunkBy (·.comm) (bal.filter sel)) = some ds ∧
+        b = ⟨bal.filter sel, ds⟩ := by
+  unfold fromIter
+  cases hb : balance st posts with
+  | err => simp
+  | undef => simp
+  | ok bal =>
+    simp only
+    cases hd : deltaGroups (chunkBy (·.comm) (bal.filter sel)) with
+    | none =>
+      simp only [Outcome.ok.injEq, reduceCtorEq, false_iff]
+      rintro ⟨bal', ds', h1, h2, -⟩
+      cases h1
+      rw [hd] at h2
+      cases h2
+    | some ds =>
+      simp only [Outcome.ok.injEq]
+      constructor
+      · rintro rfl; exact ⟨bal, ds, rfl, hd, rfl⟩
+      · rintro ⟨bal', ds', h1, h2, rfl⟩
+        cases h1
+        rw [hd] at h2
+        cases h2
+        rfl
+
+/-- **balance_rowfilter**: `Balance::from_iter` filters *after* `Balance::balance`.
+    (1) whether the run fails does not depend on the selector;
+    (2) a defined selected run lists exactly the selected rows of the kernel's balance – the `BalRow` values
+        themselves, so own sums and tree sums are untouched;
+    (3) a defined unselected run lists all of them;
+    (4) hence `rows (fromIter sel) = (rows (fromIter all)).filter sel` whenever both are defined;
+    (5) given the kernel's balance, the only thing that can make the selected run undefined is its own delta
+        sum over the listed rows – which is why (4) cannot be an equation between outcomes
+        (`naive_rowfilter_false`: the unselected deltas may leave the exact domain while the selected ones do not). -/
+theorem balance_rowfilter (st : Settings) (sel : BalRow → Bool) (posts : List BPost) :
+    (fromIter st sel posts = .err ↔ balance st posts = .err) ∧
+    (∀ b, fromIter st sel posts = .ok b → ∃ bal, balance st posts = .ok bal ∧ b.rows = bal.filter sel) ∧
+    (∀ ball, fromIter st (fun _ => true) posts = .ok ball → balance st posts = .ok ball.rows) ∧
+    (∀ b ball, fromIter st sel posts = .ok b → fromIter st (fun _ => true) posts = .ok ball →
+        b.rows = ball.rows.filter sel) ∧
+    (∀ bal, balance st posts = .ok bal →
+        (fromIter st sel posts = .undef ↔ deltaGroups (chunkBy (·.comm) (bal.filter sel)) = none)) := by
+  have hall : ∀ ball, fromIter st (fun _ => true) posts = .ok ball → balance st posts = .ok ball.rows := by
+    intro ball h
+    obtain ⟨bal, ds, hb, _, rfl⟩ := (fromIter_ok st _ posts ball).mp h
+    have e : bal.filter (fun _ => true) = bal := List.filter_eq_self.mpr (fun _ _ => rfl)
+    simp only [e]
+    exact hb
+  refine ⟨?_, ?_, hall, ?_, ?_⟩
+  · unfold fromIter
+    cases balance st posts with
+    | err => simp
+    | undef => simp
+    | ok bal =>
+      simp only
+      cases deltaGroups (chunkBy (·.comm) (bal.filter sel)) <;> simp
+  · intro b h
+    obtain ⟨bal, ds, hb, _, rfl⟩ := (fromIter_ok st sel posts b).mp h
+    exact ⟨bal, hb, rfl⟩
+  · intro b ball h hb
+    obtain ⟨bal, ds, hbal, _, rfl⟩ := (fromIter_ok st sel posts b).mp h
+    have := hall ball hb
+    rw [hbal] at this
+    cases this
+    rfl
+  · intro bal hb
+    unfold fromIter
+    rw [hb]
+    simp only
+    cases deltaGroups (chunkBy (·.comm) (bal.filter sel)) <;> simp
+
+/-- **balance_figures_unchanged**: every listed row is accepted by the selector and shows the exact sums over
+    the *whole* posting stream: its own sum, and as tree sum the sum of all postings to the account or to any
+    account below it – whether or not those accounts are listed. -/
+theorem balance_figures_unchanged (st : Settings) (sel : BalRow → Bool) (posts : List BPost)
+    (hwf : C02.PostsWF posts) (b : Balance) (h : fromIter st sel posts = .ok b) :
+    ∀ row ∈ b.rows, sel row = true ∧ row.own.units = C02.ownSum posts row.key ∧
+      row.tree.units = C02.treeSum posts row.key := by
+  obtain ⟨bal, ds, hb, _, rfl⟩ := (fromIter_ok st sel posts b).mp h
+  intro row hrow
+  obtain ⟨hmem, hsel⟩ := List.mem_filter.mp hrow
+  exact ⟨hsel, C02.own_sum st posts hwf bal hb row hmem, C02.tree_sum_posts st posts hwf bal hb row hmem⟩
+
+/-- **balance_deltas_recomputed**: the delta lines are recomputed over the listed rows: the commodities are
+    strictly increasing, a commodity has a delta line iff one of its rows is listed (a commodity all of whose rows
+    are hidden loses its line), and each delta is the exact sum of the listed rows' own sums. -/
+theorem balance_deltas_recomputed (st : Settings) (sel : BalRow → Bool) (posts : List BPost)
+    (hwf : C02.PostsWF posts) (b : Balance) (h : fromIter st sel posts = .ok b) :
+    ∃ bal, balance st posts = .ok bal ∧ b.rows = bal.filter sel ∧
+      (b.deltas.map (·.1)).Pairwise (· < ·) ∧
+      (∀ c, c ∈ b.deltas.map (·.1) ↔ ∃ r ∈ bal, sel r = true ∧ r.comm = c) ∧
+      (∀ cd ∈ b.deltas, cd.2.units =
+          ((bal.filter (fun r => sel r && decide (r.comm = cd.1))).map (·.own.units)).sum) := by
+  obtain ⟨⟨bal, hb, hrows⟩, hpw, hmem, hsum⟩ := C02.delta_eq st sel posts hwf b h
+  refine ⟨bal, hb, hrows, hpw, ?_, ?_⟩
+  · intro c
+    rw [hmem c, hrows]
+    constructor
+    · rintro ⟨r, hr, hc⟩
+      obtain ⟨h1, h2⟩ := List.mem_filter.mp hr
+      exact ⟨r, h1, h2, hc⟩
+    · rintro ⟨r, h1, h2, hc⟩
+      exact ⟨r, List.mem_filter.mpr ⟨h1, h2⟩, hc⟩
+  · intro cd hcd
+    rw [hsum cd hcd, hrows, List.filter_filter]
+    congr 3
+    funext r
+    exact Bool.and_comm _ _
+
+/-! ### register -/
+
+/-- **register_rowfilter**: with the account selector plugged in, the register is the register without
+    selector with the rejected rows removed entry by entry – same `Outcome` (it exists exactly when the
+    unselected one does), every shown row is a row of the unselected run (posting, amount, running total,
+    commodity untouched) – and the entries that are printed are those that still have a row. -/
+theorem register_rowfilter (sel : AccSelector) (txns : List Txn) :
+    register (regRowSel sel) txns = (register selAll txns).map (fun es => es.map (C03.hide (regRowSel sel))) ∧
+    ∀ es, register selAll txns = .ok es →
+      ∃ es', register (regRowSel sel) txns = .ok es' ∧
+        printedEntries es' = (es.map (C03.hide (regRowSel sel))).filter (fun e => !e.rows.isEmpty) ∧
+        ∀ e' ∈ printedEntries es', ∃ e ∈ es, e'.txn = e.txn ∧ e'.rows = e.rows.filter (regRowSel sel) ∧
+          e'.rows ≠ [] ∧ ∀ r ∈ e'.rows, r ∈ e.rows :=
+  ⟨C03.selector_only_hides _ txns, fun es h => by
+    obtain ⟨es', h1, h2, h3⟩ := C03.selector_printed (regRowSel sel) txns es h
+    refine ⟨es', h1, h2, ?_⟩
+    intro e' he'
+    obtain ⟨e, he, g1, g2, g3⟩ := h3 e' he'
+    refine ⟨e, he, g1, g2, g3, ?_⟩
+    intro r hr
+    rw [g2] at hr
+    exact (List.mem_filter.mp hr).1⟩
+
+/-- **register_totals_unchanged**: with the account selector every shown row is accepted by it, is the row of an
+    in-entry position `j` of transaction `i`, and shows as running total the exact sum of *all* postings to its
+    (commodity, account) up to that position – postings of hidden rows are accumulated all the same
+    (`C03.running_total_selected` at the account selector). -/
+theorem register_totals_unchanged (sel : AccSelector) (txns : List Txn) (es : List RegEntry) (hwf : C03.TxnsWF txns)
+    (h : register (regRowSel sel) txns = .ok es) :
+    es.length = txns.length ∧
+    ∀ i e, es[i]? = some e → ∃ t, txns[i]? = some t ∧ e.txn = t ∧
+      ∀ r ∈ e.rows, sel.eval (acctName r.post.acct) = true ∧
+        ∃ j p, (C03.sortedPosts t)[j]? = some p ∧ r.post = p ∧ r.comm = p.comm ∧
+          r.total.units = C03.postSum p.acctnKey ((txns.take i).flatMap (·.posts))
+                            + C03.postSum p.acctnKey ((C03.sortedPosts t).take (j + 1)) :=
+  C03.running_total_selected (regRowSel sel) txns es hwf h
+
+/-- the rows of the unselected register that a pattern list keeps, entries without a kept row dropped -/
+def keptEntries (rs : List Regex) (es : List RegEntry) : List RegEntry :=
+  (es.map (C03.hide (regSpec rs))).filter (fun e => !e.rows.isEmpty)
+
+/-- **register_selected_iff_matches**: what the register report writes for a pattern list inside the subset is,
+    as an equation between outcomes, the unselected register with exactly the rows kept whose account some
+    pattern matches entirely (all rows when there is no pattern). -/
+theorem register_selected_iff_matches (ras : List String) (rs : List Regex) (txns : List Txn)
+    (hp : parseAll ras = some rs) :
+    registerBySel ras txns = (register selAll txns).map (keptEntries rs) ∧
+    ∀ es e, register selAll txns = .ok es → e ∈ es → ∀ r ∈ e.rows,
+      (r ∈ (C03.hide (regSpec rs) e).rows ↔ rs = [] ∨ ∃ x ∈ rs, FullMatch x (acctName r.post.acct).toList) := by
+  obtain ⟨sel, hsel, _, hreg, _⟩ := report_selector ras rs hp
+  constructor
+  · unfold registerBySel
+    rw [hsel]
+    simp only
+    rw [hreg, C03.selector_only_hides]
+    cases register selAll txns <;> simp [Outcome.map, keptEntries, printedEntries]
+  · intro es e _ _ r hr
+    rw [← regSpec_iff]
+    simp [C03.hide, List.mem_filter, hr]
+
+/-! ### equity -/
+
+/-- **equity_rowfilter**: the export has one transaction per commodity (strictly increasing) in which the
+    unselected balance has a non-zero row the selector accepts; its postings are exactly those rows, in balance
+    order, with amount = the row's own sum (the `BalRow` of the unselected balance, untouched), followed by the
+    balancing posting, which is recomputed: (equity account, −Σ of the listed own sums) iff Σ ≠ 0. -/
+theorem equity_rowfilter (st : Settings) (sel : AccSelector) (eqa : Path) (md : List String)
+    (txns : List Txn) (out : List EqTxn) (hwf : C10.TxnsWF txns)
+    (h : equityExport st (equityAcc sel) eqa md txns = .ok out) :
+    ∃ all cs, balance st (postsOf txns) = .ok all ∧
+      cs.Pairwise (· < ·) ∧ (∀ c, c ∈ cs ↔ ∃ r ∈ all, equityRowSel sel r = true ∧ r.comm = c) ∧
+      C10.Forall2 (fun c t => ∃ last, txns.getLast? = some last ∧
+                 C10.IsEquityTxn eqa last.header md (all.filter (equityRowSel sel)) c t) cs out := by
+  obtain ⟨all, cs, hall, hpw, hcs, hf⟩ := C10.equity_shape st (equityAcc sel) eqa md txns out hwf h
+  have hsel : C10.selRows (equityAcc sel) all = all.filter (equityRowSel sel) := by
+    unfold C10.selRows
+    congr 1
+    funext row
+    exact nonZeroSel_equityAcc sel row
+  rw [hsel] at hcs hf
+  refine ⟨all, cs, hall, hpw, ?_, hf⟩
+  intro c
+  rw [hcs c]
+  constructor
+  · rintro ⟨r, hr, hc⟩
+    obtain ⟨h1, h2⟩ := List.mem_filter.mp hr
+    exact ⟨r, h1, h2, hc⟩
+  · rintro ⟨r, h1, h2, hc⟩
+    exact ⟨r, List.mem_filter.mpr ⟨h1, h2⟩, hc⟩
+
+/-- **equity_selected_iff_matches**: for a pattern list inside the subset the carried-forward rows are the
+    non-zero rows whose account some pattern matches entirely. -/
+theorem equity_selected_iff_matches (st : Settings) (ras : List String) (rs : List Regex) (eqa : Path)
+    (md : List String) (txns : List Txn) (out : List EqTxn) (hp : parseAll ras = some rs)
+    (hwf : C10.TxnsWF txns) (h : equityBySel st ras eqa md txns = .ok out) :
+    ∃ all cs, balance st (postsOf txns) = .ok all ∧
+      cs.Pairwise (· < ·) ∧ (∀ c, c ∈ cs ↔ ∃ r ∈ all, eqSpec rs r = true ∧ r.comm = c) ∧
+      C10.Forall2 (fun c t => ∃ last, txns.getLast? = some last ∧
+                 C10.IsEquityTxn eqa last.header md (all.filter (eqSpec rs)) c t) cs out ∧
+      ∀ row ∈ all, (row ∈ all.filter (eqSpec rs) ↔
+        row.own.isZero = false ∧ (rs = [] ∨ ∃ x ∈ rs, FullMatch x (acctName row.acct).toList)) := by
+  obtain ⟨sel, hsel, _, _, heq⟩ := report_selector ras rs hp
+  unfold equityBySel at h
+  rw [hsel] at h
+  simp only at h
+  obtain ⟨all, cs, hall, hpw, hcs, hf⟩ := equity_rowfilter st sel eqa md txns out hwf h
+  have hfun : equityRowSel sel = eqSpec rs := by
+    rw [← heq]; funext row; exact (nonZeroSel_equityAcc sel row).symm
+  rw [hfun] at hcs hf
+  refine ⟨all, cs, hall, hpw, hcs, hf, ?_⟩
+  intro row hrow
+  rw [← balSpec_iff]
+  simp [List.mem_filter, hrow, eqSpec]
+
+/-! ### balance: selected = matched -/
+
+/-- **selected_iff_matches**: for a pattern list inside the subset a defined balance report lists exactly the
+    rows of the unselected balance whose account is selected by the pattern meanings, i.e. (Part A,
+    `selector_matches_whole_name`) whose entire account name is matched by some pattern; everything of
+    `balance_rowfilter` / `balance_figures_unchanged` / `balance_deltas_recomputed` applies with that filter. -/
+theorem selected_iff_matches (st : Settings) (ras : List String) (rs : List Regex) (posts : List BPost)
+    (hp : parseAll ras = some rs) :
+    balanceBySel st ras posts = fromIter st (balSpec rs) posts ∧
+    ∀ b, balanceBySel st ras posts = .ok b →
+      ∃ bal, balance st posts = .ok bal ∧ b.rows = bal.filter (balSpec rs) ∧
+        ∀ row ∈ bal, (row ∈ b.rows ↔ selects rs (acctName row.acct) = true) ∧
+          (row ∈ b.rows ↔ rs = [] ∨ ∃ r ∈ rs, FullMatch r (acctName row.acct).toList) := by
+  obtain ⟨sel, hsel, hbal, _, _⟩ := report_selector ras rs hp
+  have heq : balanceBySel st ras posts = fromIter st (balSpec rs) posts := by
+    unfold balanceBySel
+    rw [hsel]
+    simp only
+    rw [hbal]
+  refine ⟨heq, ?_⟩
+  intro b hb
+  rw [heq] at hb
+  obtain ⟨bal, hbal', hrows⟩ := (balance_rowfilter st (balSpec rs) posts).2.1 b hb
+  refine ⟨bal, hbal', hrows, ?_⟩
+  intro row hrow
+  have h1 : row ∈ b.rows ↔ selects rs (acctName row.acct) = true := by
+    rw [hrows]; simp [List.mem_filter, hrow, balSpec]
+  exact ⟨h1, h1.trans (selector_matches_whole_name rs _)⟩
+
+/-! ### no pattern configured -/
+
+/-- **empty_sel_all**: with an empty pattern list the balance report is the unselected `from_iter` (all rows of
+    the kernel's balance), the register prints every entry that has a posting, with all its rows, and the equity
+    export carries forward all non-zero rows. -/
+theorem empty_sel_all (st : Settings) (posts : List BPost) (txns : List Txn) (eqa : Path) (md : List String) :
+    balanceBySel st [] posts = fromIter st (fun _ => true) posts ∧
+    (∀ b, balanceBySel st [] posts = .ok b → balance st posts = .ok b.rows) ∧
+    registerBySel [] txns = (register selAll txns).map printedEntries ∧
+    equityBySel st [] eqa md txns = equityExport st none eqa md txns ∧
+    (∀ out, C10.TxnsWF txns → equityBySel st [] eqa md txns = .ok out →
+      ∃ all cs, balance st (postsOf txns) = .ok all ∧ cs.Pairwise (· < ·) ∧
+        (∀ c, c ∈ cs ↔ ∃ r ∈ all, r.own.isZero = false ∧ r.comm = c) ∧
+        C10.Forall2 (fun c t => ∃ last, txns.getLast? = some last ∧
+          C10.IsEquityTxn eqa last.header md (all.filter (fun r => !r.own.isZero)) c t) cs out) := by
+  have e1 : balanceBySel st [] posts = fromIter st (fun _ => true) posts := rfl
+  refine ⟨e1, ?_, rfl, rfl, ?_⟩
+  · intro b hb
+    rw [e1] at hb
+    exact (balance_rowfilter st (fun _ => true) posts).2.2.1 b hb
+  · intro out hwf h
+    have h' : equityExport st (equityAcc .all) eqa md txns = .ok out := h
+    obtain ⟨all, cs, hall, hpw, hcs, hf⟩ := equity_rowfilter st .all eqa md txns out hwf h'
+    have hfun : equityRowSel .all = fun r : BalRow => !r.own.isZero := by
+      funext r; simp [equityRowSel, equitySelEval, AccSelector.eval]
+    rw [hfun] at hcs hf
+    refine ⟨all, cs, hall, hpw, ?_, hf⟩
+    intro c
+    rw [hcs c]
+    simp
+
+/-! ### non-vacuity and witnesses (journal of `Props/C02.lean`: `a 2`, `a:b:c 1.50`, `e -3.50` EUR;
+    `a:b:c 7`, `a:bc -7` USD) -/
+
+open C02 in
+/-- the pattern `a:b` lists the rows of `a:b` only (not `a`, `a:b:c`, `a:bc`, which it matches in part), with the
+    figures of the unselected run: the never-posted `a:b` keeps its full tree sums 1.50 EUR and 7 USD -/
+example : (balanceBySel st0 ["a:b"] posts0).map (fun b => b.rows.map (fun r => (r.comm, acctName r.acct, r.own, r.tree)))
+    = .ok [("EUR", "a:b", Dec.zero, dd 150 2), ("USD", "a:b", Dec.zero, dd 7 0)] := by
+  have hs : accSelector ["a:b"] = .ok (.byAccount [Regex.wrapAst (Regex.lits "a:b".toList)]) := by decide
+  unfold balanceBySel
+  rw [hs]; simp only
+  unfold fromIter
+  rw [ex_balance]; simp only
+  decide
+
+open C02 in
+/-- a parent listed without its children: the tree sum of `a` is still 3.50 EUR (the full tree); the deltas are
+    recomputed over the listed rows: 2 EUR and 0 USD -/
+example : (balanceBySel st0 ["a"] posts0).map (fun b => (b.rows.map (fun r => (r.comm, acctName r.acct, r.own, r.tree)), b.deltas))
+    = .ok ([("EUR", "a", dd 2 0, dd 350 2), ("USD", "a", Dec.zero, dd 0 0)], [("EUR", dd 2 0), ("USD", Dec.zero)]) := by
+  have hs : accSelector ["a"] = .ok (.byAccount [Regex.wrapAst (Regex.lits "a".toList)]) := by decide
+  unfold balanceBySel
+  rw [hs]; simp only
+  unfold fromIter
+  rw [ex_balance]; simp only
+  decide
+
+open C02 in
+/-- a selector hiding every USD row: the USD delta line disappears -/
+example : (balanceBySel st0 ["e|a"] posts0).map (fun b => b.deltas.map (·.1)) = .ok ["EUR", "USD"] ∧
+    (balanceBySel st0 ["e"] posts0).map (fun b => b.deltas.map (·.1)) = .ok ["EUR"] := by
+  have h1 : accSelector ["e|a"] = .ok (.byAccount [Regex.wrapAst (.alt (Regex.lits "e".toList) (Regex.lits "a".toList))]) := by
+    decide
+  have h2 : accSelector ["e"] = .ok (.byAccount [Regex.wrapAst (Regex.lits "e".toList)]) := by decide
+  constructor
+  · unfold balanceBySel
+    rw [h1]; simp only
+    unfold fromIter
+    rw [ex_balance]; simp only
+    decide
+  · unfold balanceBySel
+    rw [h2]; simp only
+    unfold fromIter
+    rw [ex_balance]; simp only
+    decide
+
+open C03 in
+/-- register with the pattern `b|c` on the journal of `Props/C03.lean`: rows of `a` are hidden, the running totals
+    of `b` (-10, -5, -6) and `c` are those of the full report -/
+example : registerBySel ["b|c"] [tx1, tx2, tx3]
+    = .ok [⟨tx1, [row "b" (-10) (-10)]⟩, ⟨tx2, [row "b" 5 (-5)]⟩, ⟨tx3, [row "b" (-1) (-6), row "c" 1 1]⟩] := by
+  have hs : accSelector ["b|c"] = .ok (.byAccount [Regex.wrapAst (.alt (Regex.lits "b".toList) (Regex.lits "c".toList))]) := by
+    decide
+  unfold registerBySel
+  rw [hs]; simp only
+  rw [selector_only_hides, example_register]
+  decide
+
+open C03 in
+/-- the pattern `c` alone: the entries of `tx1` and `tx2` are left without a row and are not printed -/
+example : registerBySel ["c"] [tx1, tx2, tx3] = .ok [⟨tx3, [row "c" 1 1]⟩] := by
+  have hs : accSelector ["c"] = .ok (.byAccount [Regex.wrapAst (Regex.lits "c".toList)]) := by decide
+  unfold registerBySel
+  rw [hs]; simp only
+  rw [selector_only_hides, example_register]
+  decide
+
+open C10 in
+/-- equity export with the pattern `a|c` on the journal of `Props/C10.lean`: `b` and `e` are not carried forward,
+    the balancing postings are recomputed (-3 and -7) -/
+example : equityBySel st1 ["a|c"] ["Eq"] [] j1 = .ok [
+   ⟨⟨2, 0⟩, "Equity: last txn (uuid): u2", [], [⟨["a"], d 3, ""⟩, ⟨["Eq"], d (-3), ""⟩]⟩,
+   ⟨⟨2, 0⟩, "Equity for EUR: last txn (uuid): u2", [],
+    [⟨["a"], d 5, "EUR"⟩, ⟨["c"], d 2, "EUR"⟩, ⟨["Eq"], d (-7), "EUR"⟩]⟩] := by
+  have hs : accSelector ["a|c"] = .ok (.byAccount [Regex.wrapAst (.alt (Regex.lits "a".toList) (Regex.lits "c".toList))]) := by
+    decide
+  unfold equityBySel
+  rw [hs]; simp only
+  unfold equityExport fromIter
+  rw [balance_j1]
+  decide
+
+/-- a pattern outside the modelled subset: all three outputs are undefined in the model (never a made-up row list) -/
+example : balanceBySel C02.st0 ["(?i)a"] C02.posts0 = .undef ∧ registerBySel ["(?i)a"] [] = .undef ∧
+    equityBySel C02.st0 ["(?i)a"] ["Eq"] [] [] = .undef := by decide
+
+/-- the hypotheses of the theorems are satisfiable: `a:(b|c).*` and `e` are inside the subset -/
+example : parseAll ["a:(b|c).*", "e"] ≠ none := by decide
+
+/-- two roots holding 2⁹⁶−1 each: the unselected deltas leave the exact domain, the delta of `a` alone does not -/
+def big : Dec := ⟨false, 79228162514264337593543950335, 0⟩
+def postsBig : List BPost := [⟨["a"], "", big⟩, ⟨["b"], "", big⟩]
+def rowsBig : List BalRow := [⟨["a"], "", big, big⟩, ⟨["b"], "", big, big⟩]
+
+theorem balance_big : balance C02.st0 postsBig = .ok rowsBig := by
+  have h1 : postsBig.mergeSort (fun a b => keyLe a.key b.key) = postsBig := List.mergeSort_of_pairwise (by decide)
+  have h2 : accountSums postsBig = some [(("", ["a"]), big), (("", ["b"]), big)] := by
+    unfold accountSums; rw [h1]; decide
+  have h3 : completeTree C02.st0 [(("", ["a"]), big), (("", ["b"]), big)]
+      = .ok [(("", ["a"]), big), (("", ["b"]), big)] := by decide
+  have h4 : rowsBig.mergeSort (fun a b => keyLe a.key b.key) = rowsBig := List.mergeSort_of_pairwise (by decide)
+  have h5 : flattenOpt (([(("", ["a"]), big), (("", ["b"]), big)].filter (fun s => s.1.2.length == 1)).map
+      (treeNodes [(("", ["a"]), big), (("", ["b"]), big)] (maxDepth [(("", ["a"]), big), (("", ["b"]), big)] + 1)))
+      = some rowsBig := by decide
+  unfold balance
+  rw [h2]; simp only
+  rw [h3]; simp only
+  rw [h5]; simp only
+  rw [h4]
+
+/-- **naive_rowfilter_false**: "the selected run is the unselected run with rows filtered" is *not* an equation
+    between outcomes: here the unselected run is undefined (its delta 2·(2⁹⁶−1) is not representable) while the
+    run selecting `a` is defined.  `balance_rowfilter` is therefore stated against the kernel's balance. -/
+theorem naive_rowfilter_false :
+    ∃ (st : Settings) (sel : BalRow → Bool) (posts : List BPost),
+      fromIter st (fun _ => true) posts = .undef ∧
+      (fromIter st sel posts).map (·.rows) = .ok ((rowsBig).filter sel) ∧
+      (fromIter st sel posts).map (·.rows) ≠ (fromIter st (fun _ => true) posts).map (fun b => b.rows.filter sel) := by
+  refine ⟨C02.st0, fun r => r.acct == ["a"], postsBig, ?_, ?_, ?_⟩
+  · unfold fromIter; rw [balance_big]; decide
+  · unfold fromIter; rw [balance_big]; decide
+  · unfold fromIter; rw [balance_big]; decide
 
 end C11
 end Tackler
